@@ -7,7 +7,7 @@ FUNCS = ["sin", "cos", "tan", "cot", "sec", "csc", "sinh", "cosh", "tanh", "coth
     "arcsin", "arccos", "arctan", "min", "max"]
 OPNAME_MAP = {"asin": "asin", "acos": "acos", "atan": "atan", "asinh": "asinh", "acosh": "acosh",
     "atanh": "atanh", "acot": "acot"}
-CONSTS = {"\\pi": "pi", "\\infty": "oo"}
+CONSTS = {"\\pi": "pi", "\\infty": "oo", "e": "E"}  # (e only where no symbol of the expression is displayed as e: names are tried first)
 
 
 def check_balanced(s):
@@ -330,11 +330,22 @@ class LP:
         # undefined functions by display name
         fn = self.name_here(self.funcnames)
         nm = self.name_here(self.names)
-        if fn is not None and (nm is None or len(fn) >= len(nm)) and (
-                s.startswith("{\\left(", self.i + len(fn)) ):
+        if fn is not None and (nm is None or len(fn) >= len(nm)):
+            # f{\left(x \right)} or the power notation f^{2}{\left(x \right)}
+            save = self.i
             self.i += len(fn)
-            args = self.funcarg()
-            return ("call", ("name", "FN:" + fn), args)
+            p = None
+            if self.at("^"):
+                self.eat("^")
+                try:
+                    p = self.script()
+                except ParseError:
+                    p = None
+            if s.startswith("{\\left(", self.i):
+                args = self.funcarg()
+                node = ("call", ("name", "FN:" + fn), args)
+                return ("pow", node, p) if p is not None else node
+            self.i = save
         if nm is not None:
             self.i += len(nm)
             return ("name", nm)
